@@ -34,7 +34,8 @@ static cbor_item_t* chunk(int text) { size_t l0 = a_live; unsigned char b = in_u
 #define OP_DECREF_NESTED 20
 #define OP_REPLACE_SAME 21          /* the slot is overwritten with the very item it already holds (aliasing) */
 #define OP_PUSH_AGAIN 22            /* an item already held by the array is pushed a second time */
-#define OP_MAP_ADD_SAME 23          /* the same item as key and as value */        /* array [ tag(c1), c1 ]: releasing the array releases the tag, which drops its reference to c1 */
+#define OP_MAP_ADD_SAME 23          /* the same item as key and as value */
+#define OP_APPEND_NTH 24            /* append to a container that already holds PRE entries: exercises both the growth step and the free-slot path */        /* array [ tag(c1), c1 ]: releasing the array releases the tag, which drops its reference to c1 */
 
 void harness(void) {
   a_install();
@@ -140,6 +141,48 @@ void harness(void) {
   VF_ASSERT(ok && k->refcount == 3 + sk, "the same item as key and value: two references");
   cbor_decref(&m);
   VF_ASSERT(k->refcount == 1 + sk && a_live == live0, "releasing the map drops both references and every block the map took");
+#elif OP == OP_APPEND_NTH
+  /* KIND: 1 indefinite array, 2 indefinite map, 3 chunked byte string, 4 chunked text string, 5 definite array (capacity PRE+1), 6 definite map (capacity PRE+1) */
+  cbor_item_t* old[6];
+#if KIND == 1
+  cbor_item_t* c = cbor_new_indefinite_array();
+#elif KIND == 2
+  cbor_item_t* c = cbor_new_indefinite_map();
+#elif KIND == 3
+  cbor_item_t* c = cbor_new_indefinite_bytestring();
+#elif KIND == 4
+  cbor_item_t* c = cbor_new_indefinite_string();
+#elif KIND == 5
+  cbor_item_t* c = cbor_new_definite_array(PRE + 1);
+#else
+  cbor_item_t* c = cbor_new_definite_map(PRE + 1);
+#endif
+  __CPROVER_assume(c);
+#if KIND == 3 || KIND == 4
+#define NEWITEM() chunk(KIND == 4)
+#else
+#define NEWITEM() leaf()
+#endif
+#if KIND == 1 || KIND == 5
+#define APPEND(x) cbor_array_push(c, x)
+#elif KIND == 2 || KIND == 6
+#define APPEND(x) cbor_map_add(c, (struct cbor_pair){.key = x, .value = x})
+#elif KIND == 3
+#define APPEND(x) cbor_bytestring_add_chunk(c, x)
+#else
+#define APPEND(x) cbor_string_add_chunk(c, x)
+#endif
+#define PER ((KIND == 2 || KIND == 6) ? 2 : 1)   /* references a container takes per appended entry (a map holds key and value) */
+  for (int i = 0; i < 6; i++) if (i < PRE) { old[i] = NEWITEM(); OK(APPEND(old[i])); }
+  cbor_item_t* x = NEWITEM();
+  size_t sx = surplus(); x->refcount = 1 + sx;
+  bool ok = APPEND(x);
+  VF_ASSERT(ok, "append succeeds while there is room / the container can grow");
+  VF_ASSERT(x->refcount == 1 + PER + sx, "the container takes exactly one reference per stored position, whichever internal path stores it");
+  for (int i = 0; i < 6; i++) if (i < PRE) VF_ASSERT(cbor_refcount(old[i]) == 1 + PER, "earlier entries keep their counts");
+  cbor_decref(&c);
+  VF_ASSERT(x->refcount == 1 + sx, "releasing the container gives every reference back");
+  for (int i = 0; i < 6; i++) if (i < PRE) VF_ASSERT(cbor_refcount(old[i]) == 1, "earlier entries are back to the client's reference");
 #elif OP == OP_GET
   cbor_item_t* y = leaf(); cbor_item_t* a = cbor_new_indefinite_array(); __CPROVER_assume(a); OK(cbor_array_push(a, y));
   size_t sy = surplus(); y->refcount = 2 + sy;
